@@ -581,8 +581,7 @@ class RemoteStreamFlowPath(
         return self._inner_path
 
     def _make_child_relpath(self, part):
-        parts = self._tail
-        return self._from_parsed_parts(self._drv, self._root, parts)
+        return self / part
 
     async def _test(self, command: list[str]) -> bool:
         command = ["test"] + command
@@ -845,16 +844,19 @@ class RemoteStreamFlowPath(
                 if isinstance(path, tuple):
                     yield path
                     continue
-                command = ["find"]
+                # Only a directory can be listed. Its entries are either directories
+                # (to be visited in turn) or files, symbolic links included
+                quoted_path = shlex.quote(str(path))
+                command = ["test", "-d", quoted_path, "&&", "find", "-H", quoted_path]
+                command.extend(["-mindepth", "1", "-maxdepth", "1"])
+                is_dir = ["-type", "d"]
                 if follow_symlinks:
-                    command.append("-L")
-                command.extend(
-                    [shlex.quote(str(path)), "-mindepth", "1", "-maxdepth", "1"]
-                )
+                    is_dir = ["-type", "l", "-exec", "test", "-d", "{}", "\\;"]
+                    is_dir = ["\\(", "-type", "d", "-o", *is_dir, "\\)"]
                 try:
                     content, status = await self.connector.run(
                         location=self.location,
-                        command=command + ["-type", "d"],
+                        command=command + is_dir + ["-print"],
                         capture_output=True,
                     )
                     _check_status(command, self.location, content, status)
@@ -869,7 +871,7 @@ class RemoteStreamFlowPath(
                     )
                     content, status = await self.connector.run(
                         location=self.location,
-                        command=command + ["-type", "f"],
+                        command=command + ["!"] + is_dir + ["-print"],
                         capture_output=True,
                     )
                     _check_status(command, self.location, content, status)
